@@ -388,12 +388,15 @@ def cases(ctx, salt, per_cell, kinds, types=TYPES, ms=(2, 3, 4, 5), scales=SCALE
     """deterministic structured sweep: every (type, system, class) cell `per_cell` times with rotating m and scale"""
     g = ctx.npgen(salt)
     k = 0
+    cnt = {}
     for typ in types:
         for kind in kinds:
             for cls in classes:
                 for r in range(per_cell):
                     m = ms[k % len(ms)] if typ in ("Povm", "MProcess") else 1
-                    scale = scales[(k // 2) % len(scales)] if cls not in ("physical", "almost") else 1.0
+                    # every class walks through all scales over its own occurrences (independent of the number of classes)
+                    cnt[cls] = cnt.get(cls, -1) + 1
+                    scale = scales[(cnt[cls] + classes.index(cls)) % len(scales)] if cls not in ("physical", "almost") else 1.0
                     k += 1
                     yield dict(typ=typ, kind=kind, m=m, scale=scale, cls=cls,
                                x=gen_param(g, typ, kind, m, scale, cls), g=g)
